@@ -108,10 +108,15 @@ def close(a, b, rel=REL, floor=1e-9):
   return abs(a - b) <= rel * max(abs(a), abs(b), floor)
 
 
-def fit_tbr(spec, target='response', use_cooldown=None, **frame_kw):
+def fit_tbr(spec, target='response', use_cooldown=None, history=None, **frame_kw):
+  """history: a specification analysed (fitted and queried) on the same TBR object first."""
   from matched_markets.methodology import tbr
   uc = spec['n_cool'] > 0 if use_cooldown is None else use_cooldown
   m = tbr.TBR(use_cooldown=uc)
+  if history is not None:
+    m.fit(build_df(history), target)
+    m.causal_cumulative_distribution()
+    m.summary(level=0.9, tails=1)
   m.fit(build_df(spec, **frame_kw), target)
   return m
 
